@@ -6,6 +6,7 @@ import (
 	proxyv1alpha1 "github.com/kubewharf/kubegateway/pkg/apis/proxy/v1alpha1"
 	"github.com/kubewharf/kubegateway/pkg/ratelimiter/util"
 
+	"verifharness/bed"
 	"verifharness/vkit"
 )
 
@@ -31,6 +32,15 @@ func (h *history) reinit() {
 	h.r.Count("sys_reinit_"+how, 1)
 	h.heartbeatAll()
 	rec := readRecord(h.srv, h.upstream)
+	// premise of what follows: the record starts over (a new local store / a re-created upstream is empty; the API-backed store
+	// re-loads exactly the instances' conditions). If the store says otherwise the model has nothing to stand on.
+	if (!h.apiStore || how == "upstream-recreated") && len(rec.per) > 0 {
+		h.dead = true
+		h.r.Count("reinit_premise_not_met", 1)
+		bed.MarkPremiseBroken()
+		h.logf("%s: the record did NOT start over (%d instances on record): history abandoned", how, len(rec.per))
+		return
+	}
 	h.logf("%s: the instances keep their quotas, on record now: %d instance(s)", how, len(rec.per))
 	for round := 0; round < 2 && !h.dead; round++ {
 		for _, k := range h.g.Perm(len(h.gws)) {
@@ -86,7 +96,7 @@ func (h *history) rejectedReport() {
 	h.logf("report of %s with %s: err=%v panic=%v", w.id, what, err, p)
 	if p != nil {
 		h.dead = true
-		h.r.Violation("C07/system/panic/rejected-report", fmt.Sprintf("UpdateRateLimitConditionStatus panicked on a report with %s: %v", what, p), h.witness(nil))
+		h.viol("C07/system/panic/rejected-report", fmt.Sprintf("UpdateRateLimitConditionStatus panicked on a report with %s: %v", what, p), h.witness(nil))
 		return
 	}
 	after := readRecord(h.srv, h.upstream)
@@ -95,7 +105,7 @@ func (h *history) rejectedReport() {
 		sb, sa, L := before.sum[s.Name], after.sum[s.Name], int64(s.Limit)
 		if (sb <= L && sa > L) || (sb > L && sa > sb) {
 			h.dead = true
-			h.r.Violation("C07/system/rejected-report/overcommit/"+regime(sb, L),
+			h.viol("C07/system/rejected-report/overcommit/"+regime(sb, L),
 				fmt.Sprintf("schema %s (global limit %d): a report with %s (answered err=%v) took the sum on record from %d to %d", s.Name, L, what, err, sb, sa), h.witness(nil))
 			return
 		}
@@ -188,7 +198,7 @@ func (h *history) otherUpstreamTraffic() {
 		sb, sa, L := before.sum[s.Name], after.sum[s.Name], int64(s.Limit)
 		if (sb <= L && sa > L) || (sb > L && sa > sb) {
 			h.dead = true
-			h.r.Violation("C07/system/other-upstream/overcommit/"+regime(sb, L),
+			h.viol("C07/system/other-upstream/overcommit/"+regime(sb, L),
 				fmt.Sprintf("schema %s of %s (global limit %d): reports of the same instances to ANOTHER upstream (%s) took its sum on record from %d to %d", s.Name, h.upstream, L, h.other, sb, sa), h.witness(nil))
 			return
 		}
